@@ -374,6 +374,38 @@ def gen_ref_amount(rng, total=None):
     return ("times", rng.choice([0.5, 1.0, 1, Fraction(1, 2), 2]), rng.choice(["", " "]))
 
 
+def _leaf(name, amt=None):
+    return ("leaf", amt, (name,))
+
+
+# minimised past failures (of seeded changes), as abstract descriptions; run first by every compile-based check
+CORPUS = [
+    # a definition used twice by identical references, after an earlier definition was folded into it
+    [[(None, False, _leaf("onion", ("qty", 1, None, "", ""))),
+      ([("filling",)], False, ("step", ("mix",), [_leaf("mince", ("qty", 200, "g", "", "")), ("step", ("chop",), [_leaf("onion")])])),
+      (None, False, ("step", ("pie",), [_leaf("filling"), _leaf("pastry"), _leaf("filling")]))]],
+    # output names of one statement that differ only in letter case
+    [[([("Stock",), ("stock",)], False, ("step", ("boil",), [_leaf("bones")]))]],
+    [[([("broth",), ("Broth ",)], True, ("step", ("boil",), [_leaf("bones")])), (None, False, _leaf("salt"))]],
+    # a chain of two folds with a quantity-form reference
+    [[(None, False, _leaf("spam", ("qty", 100, "g", "", ""))),
+      ([("fried spam",)], False, ("step", ("fry",), [_leaf("spam")])),
+      (None, False, ("step", ("boil",), [_leaf("fried spam", ("qty", 100, "g", "", "")), _leaf("water")]))]],
+    [[(None, False, _leaf("spam", ("qty", 1, "kg", " ", ""))),
+      ([("fried spam",)], True, ("step", ("fry",), [_leaf("spam")])),
+      (None, False, ("step", ("boil",), [_leaf("fried spam", ("qty", 1000, "g", "", " of")), _leaf("water")]))]],
+    # a fold inside an earlier block, the result referenced from a later block
+    [[(None, False, _leaf("spam", ("qty", 100, "g", "", ""))), ([("fried spam",)], False, ("step", ("fry",), [_leaf("spam")]))],
+     [(None, False, ("step", ("boil",), [_leaf("fried spam"), _leaf("water")]))]],
+    # used once in full in its own block and again in a later block
+    [[(None, False, _leaf("lemon", ("qty", 1, None, "", ""))), ([("juice",)], False, ("step", ("squeeze",), [_leaf("lemon")]))],
+     [(None, False, ("step", ("garnish",), [_leaf("cake"), ("step", ("zest",), [_leaf("lemon")])]))]],
+    # a name redefined in a later block
+    [[([("batter",)], False, ("step", ("whisk",), [_leaf("eggs", ("qty", 2, None, "", "")), _leaf("flour", ("qty", 100, "g", "", ""))]))],
+     [(None, False, _leaf("milk")), ([("batter",)], True, _leaf("egg", ("qty", 1, None, "", "")))]],
+]
+
+
 class Gen:
     def __init__(self, rng, names=None, steps=None):
         self.rng = rng
@@ -400,6 +432,9 @@ class Gen:
         outs, named = None, False
         if rng.random() < 0.35:
             outs = [rng.choice(self.names) for _ in range(rng.choice([1, 1, 1, 2]))]
+            if len(outs) == 2 and rng.random() < 0.15 and isinstance(outs[0][0], str):
+                # a second name that differs from the first only in letter case / surrounding space
+                outs[1] = (rng.choice([outs[0][0].upper(), outs[0][0].title(), outs[0][0] + " "]),) + tuple(outs[0][1:])
             named = rng.random() < 0.4
         e = self.expr(rng.randint(0, 3) if depth is None else depth)
         t = e
